@@ -1349,6 +1349,19 @@ func (ns *normState) tryIf(pk *packages.Package, file *ast.File, x *ast.IfStmt, 
 		}
 		return t
 	}
+	// if err := f(a); err != nil { …; return } — every return of f jumps straight to the body or past it
+	if as, ok := x.Init.(*ast.AssignStmt); ok && len(as.Rhs) == 1 && as.Tok == token.DEFINE && x.Else == nil {
+		if _, isCall := as.Rhs[0].(*ast.CallExpr); isCall {
+			ns.checkIfText = "if " + ns.srcText(x.Cond.Pos(), x.Cond.End()) + " " + ns.srcText(x.Body.Pos(), x.Body.End())
+			done := ns.tryAssignCheck(pk, file, as, x, callees, func(s *inlSite, text string, need map[string]string) {
+				record(s, x, "{\n"+text+"\n}", need)
+			})
+			ns.checkIfText = ""
+			if done {
+				return
+			}
+		}
+	}
 	// call in the init statement: v, ok := f(a)
 	if as, ok := x.Init.(*ast.AssignStmt); ok && len(as.Rhs) == 1 {
 		if ce, ok := as.Rhs[0].(*ast.CallExpr); ok {
@@ -1553,11 +1566,11 @@ func (ns *normState) tryAssignCheck(pk *packages.Package, file *ast.File, st, ne
 		return false
 	}
 	c := ns.calleeOf(pk, ce, callees)
-	if c == nil || numResults(c) != len(as.Lhs) || len(as.Lhs) < 2 {
+	if c == nil || numResults(c) != len(as.Lhs) || (len(as.Lhs) < 2 && ns.checkIfText == "") {
 		return false
 	}
 	ifs, ok := next.(*ast.IfStmt)
-	if !ok || ifs.Init != nil || ifs.Else != nil || len(ifs.Body.List) == 0 {
+	if !ok || (ifs.Init != nil && ns.checkIfText == "") || ifs.Else != nil || len(ifs.Body.List) == 0 {
 		return false
 	}
 	// the tested result
@@ -1697,7 +1710,11 @@ func (ns *normState) tryAssignCheck(pk *packages.Package, file *ast.File, st, ne
 	}
 	b.WriteString(blk + "\n")
 	if ns.check.used["Check"] {
-		b.WriteString(labels[0] + ":\n" + ns.srcText(ifs.Pos(), ifs.End()) + "\n")
+		ifText := ns.srcText(ifs.Pos(), ifs.End())
+		if ns.checkIfText != "" {
+			ifText = ns.checkIfText
+		}
+		b.WriteString(labels[0] + ":\n" + ifText + "\n")
 	}
 	if ns.check.used["Cont"] {
 		b.WriteString(labels[1] + ":\n")
